@@ -724,6 +724,14 @@ pub fn run_c18(args: &Args) -> i32 {
             let mut classes: BTreeSet<u8> = BTreeSet::new();
             let mut bad: Option<(Vec<Step>, bool, String)> = None;
             let mut n = 0u64;
+            let current: std::sync::Arc<std::sync::Mutex<(Vec<Step>, bool)>> = std::sync::Arc::new(std::sync::Mutex::new((vec![], false)));
+            let _g = {
+                let (cur, an, al) = (current.clone(), ad.name, alpha.clone());
+                crate::evidence::watchdog::enter(move || {
+                    let c = cur.lock().unwrap();
+                    json!({"engine":"iomc-c18","adapter":an,"sequence":c.0.iter().map(|s| format!("{:?}", s)).collect::<Vec<_>>(),"sequence_indices":c.0.iter().map(|s| al.iter().position(|a| a == s).unwrap_or(0)).collect::<Vec<_>>(),"full_alphabet":al.len() > 50,"vectored":c.1})
+                })
+            };
             for d in 1..=depth {
                 let count = alpha.len().pow(d as u32);
                 let mut code = ci;
@@ -736,9 +744,14 @@ pub fn run_c18(args: &Args) -> i32 {
                         }
                         n += 1;
                         let res = {
-                            let (an, sq, full) = (ad.name, seq.clone(), alpha.len() > 50);
-                            let al = alpha.clone();
-                            let _g = crate::evidence::watchdog::enter(move || json!({"engine":"iomc-c18","adapter":an,"sequence":sq.iter().map(|s| format!("{:?}", s)).collect::<Vec<_>>(),"sequence_indices":sq.iter().map(|s| al.iter().position(|a| a == s).unwrap_or(0)).collect::<Vec<_>>(),"full_alphabet":full,"vectored":vectored}));
+                            // the watchdog guard of this chunk describes whatever sequence is current
+                            {
+                                let mut cur = current.lock().unwrap();
+                                cur.0.clear();
+                                cur.0.extend_from_slice(&seq);
+                                cur.1 = vectored;
+                            }
+                            crate::evidence::watchdog::touch();
                             run_sequence(ad, &seq, vectored)
                         };
                         match res {
